@@ -1,5 +1,6 @@
 """C05 -- outbound sink property (see properties.jsonl); parts, oracle and clauses in props/sink_common.py"""
 from props import sink_common as S
+from props import C19 as HS
 
 RULE = ("operation sequences on the real sink of a v3/v5 connection (server and client role): tasks started, polled "
         "by hand, dropped; peer acknowledgements singly or batched, of the right or wrong kind/id; back-pressure "
@@ -12,16 +13,37 @@ USES_GEN = False
 WANT = {5}
 
 
+class WindowAtHandshake(HS.HsPart):
+    """where the limit comes from: after the handshake the send window is min(configured or overridden max_send,
+    peer Receive Maximum) -- the handshake engine's cases that read sink.credit(), clause 7 of its scan only"""
+
+    def py_oracle(self, case, obs):
+        v = HS.py_oracle(case, obs)
+        return v if v.startswith("0,7") else "1"
+
+
 def parts(tier, rng):
-    return S.make_parts(tier, rng, WANT, quiesced=False)
+    res = S.make_parts(tier, rng, WANT, quiesced=False)
+    for p in HS.parts(tier, rng):
+        cases = [c for c in p.cases if any(f == "1" for f in c.split(";")[3:])]
+        if cases:
+            res.append(WindowAtHandshake("window-at-handshake-" + p.name, "hs", cases, shards=16, rule=p.rule))
+    return res
 
 
 def replay_parts(rp):
+    if rp.get("engine") == "hs":
+        return [WindowAtHandshake("replay", "hs", [rp["case"]], shards=1)]
     return S.replay_parts(rp, WANT)
 
 
 def known_signature(part, case, impl_obs, oracle):
+    if isinstance(part, HS.HsPart):
+        return None
     return S.known_signature_c13(part, case, impl_obs, oracle) if 13 in WANT else None
 
 
-clause_text = S.clause_text
+def clause_text(part, oracle):
+    if isinstance(part, HS.HsPart):
+        return HS.clause_text(part, oracle)
+    return S.clause_text(part, oracle)
